@@ -23,6 +23,7 @@ CFG = {
         "Leptos.Park.Graph.C19_graph_abba_deadlock_witness",
         "Leptos.Park.Graph.C19_graph_clear_releases_own_lock",
         "Leptos.Park.Graph.C19_graph_check_sees_cross_thread_dirty",
+        "Leptos.Park.Graph.C19_graph_torn_read_witness",
         "Leptos.Park.Notify.C19_notify_not_stuck",
         "Leptos.Park.Notify.C19_notify_stuck_witness",
         "Leptos.Park.AwaitW.C19_await_writer_lost_wake_witness",
